@@ -5,6 +5,7 @@ package main
 import (
 	"fmt"
 	"go/token"
+	"strings"
 	"go/types"
 
 	"golang.org/x/tools/go/ssa"
@@ -79,7 +80,7 @@ func (x *Exec) execInstr(p *Path, in ssa.Instruction, work *[]*Path) bool {
 		switch base.K {
 		case KSlice:
 			x.guard(p, fmt.Sprintf("(and (<= 0 %s) (< %s %s))", idx.T, idx.T, base.Len), "index", in)
-			x.bind(p, v, SV{K: KLoc, Loc: &Loc{Kind: "slot", Arr: base.Arr, Idx: fmt.Sprintf("(+ %s %s)", base.Off, idx.T), Elem: base.Elem}})
+			x.bind(p, v, SV{K: KLoc, Loc: &Loc{Kind: "slot", Arr: base.Arr, Idx: fmt.Sprintf("(+ %s %s)", base.Off, idx.T), Elem: base.Elem, Owner: base.Owner}})
 		case KArrPtr:
 			x.guard(p, fmt.Sprintf("(and (<= 0 %s) (< %s %s))", idx.T, idx.T, base.Len), "index", in)
 			x.bind(p, v, SV{K: KLoc, Loc: &Loc{Kind: "slot", Arr: base.Arr, Idx: idx.T, Elem: base.Elem}})
@@ -271,7 +272,7 @@ func (x *Exec) load(p *Path, l *Loc) SV {
 	case "lfield":
 		if l.Field == "val" {
 			g := func(c string) string { return fmt.Sprintf("(select (%s %s) %s)", c, H, l.Ref) }
-			return SV{K: KSlice, Arr: g("Larr"), Off: g("Loff"), Len: g("Llen"), Cap: g("Lcap"), Elem: x.fieldType}
+			return SV{K: KSlice, Arr: g("Larr"), Off: g("Loff"), Len: g("Llen"), Cap: g("Lcap"), Elem: x.fieldType, Owner: l.Ref}
 		}
 		return SV{K: KTerm, T: fmt.Sprintf("(select (Lptr %s) %s)", H, l.Ref), S: SVal, Go: l.Elem}
 	case "ofield":
@@ -364,6 +365,13 @@ func (x *Exec) execStore(p *Path, v *ssa.Store) bool {
 	case "slot":
 		x.frameCheck(p, "arr", l.Arr, v)
 		p.pendingExt = "fresh:" + l.Arr
+		for _, u := range p.unpub {
+			if l.Owner != "" && strings.HasSuffix(u, "|"+l.Owner) {
+				// the spine of a container under construction is reachable from nothing that is live
+				p.pendingExt = "ghost"
+				x.assumptions["a container under construction (allocated here, not yet returned or stored) is unreachable from live values"] = true
+			}
+		}
 		inner := fmt.Sprintf("(store (select (Mem %s) %s) %s %s)", p.H, l.Arr, l.Idx, wrapElem(l.Elem, val.T))
 		x.store1(p, "Mem", l.Arr, inner)
 	case "cell":
